@@ -365,4 +365,173 @@ theorem run_inv (ops : List Op) : ∀ (s : SM), ChainInv s → ChainInv (run 3 s
   | nil => intro s h; exact h
   | cons o os ih => intro s h; exact ih _ (step_inv s h o)
 
+/-! ### the modification-time guard is implied by the flag (requirement tokens) -/
+
+/-- with the requirement tokens the modification-time guard is implied by the flag: whenever the
+database file changed after the recorded time, FULL_NEEDED is set; and a captured full snapshot
+whose database has since been replaced carries an outdated token -/
+structure GuardInv (s : SM) : Prop where
+  flag : s.modified = true → s.fullNeeded = true
+  tok : ∀ c n cm g, s.pend = some (.full c n cm g) → g ≤ s.gen ∧ (s.modified = true → g < s.gen)
+
+theorem guardInv_init : GuardInv {} := ⟨(fun h => by cases h), (fun _ _ _ _ h => by cases h)⟩
+
+theorem guard_restart (s : SM) (h : GuardInv s) : GuardInv (restartSM s).1 := by
+  unfold restartSM
+  split
+  · exact ⟨(fun hm => by cases hm), (fun _ _ _ _ hp => by cases hp)⟩
+  · exact h
+
+theorem guard_snapBegin (s : SM) (h : GuardInv s) : GuardInv (snapBegin 3 s).1 := by
+  unfold snapBegin
+  split
+  · exact h
+  · split
+    · have h32 : (3 : Nat) ≥ 2 := by decide
+      simp only [h32, if_true]
+      refine ⟨(fun hm => by cases hm), ?_⟩
+      intro c n cm g hp
+      simp only [Option.some.injEq, Pend.full.injEq] at hp
+      obtain ⟨_, _, _, rfl⟩ := hp
+      exact ⟨Nat.le_refl _, (fun hm => by cases hm)⟩
+    · split
+      · exact h
+      · exact ⟨h.flag, fun _ _ _ _ hp => by cases hp⟩
+
+theorem guard_snapEnd (s : SM) (h : GuardInv s) (o : Outcome) : GuardInv (snapEnd 3 s o).1 := by
+  have none' : ∀ t : SM, t.pend = none → (t.modified = true → t.fullNeeded = true) → GuardInv t :=
+    fun t hp hf => ⟨hf, fun _ _ _ _ hp' => by rw [hp] at hp'; cases hp'⟩
+  unfold snapEnd
+  cases hp : s.pend with
+  | none => exact h
+  | some p =>
+    cases p with
+    | full c n cm g =>
+      obtain ⟨hle, hlt⟩ := h.tok c n cm g hp
+      cases o with
+      | ok =>
+        have h33 : (3 : Nat) ≥ 3 := by decide
+        simp only [h33, if_true]
+        refine none' _ rfl ?_
+        intro hm
+        have hm' : s.modified = true := hm
+        have := hlt hm'
+        have hne : ¬ s.gen = g := by omega
+        simp only [hne, if_false]
+        exact h.flag hm'
+      | notInvoked => exact none' _ rfl h.flag
+      | failBefore => exact none' _ rfl h.flag
+      | failAfter => exact none' _ rfl h.flag
+    | inc n cm =>
+      cases o with
+      | ok =>
+        simp only
+        split
+        · exact none' _ rfl h.flag
+        · exact none' _ rfl h.flag
+      | notInvoked => exact none' _ rfl h.flag
+      | failBefore => exact none' _ rfl h.flag
+      | failAfter =>
+        simp only
+        have := guard_restart { s with pend := none } (none' _ rfl h.flag)
+        cases hrs : restartSM { s with pend := none } with
+        | mk s' r => rw [hrs] at this; exact this
+    | stale c =>
+      cases c with
+      | none =>
+        cases o with
+        | ok =>
+          simp only
+          have := guard_restart { s with pend := none } (none' _ rfl h.flag)
+          cases hrs : restartSM { s with pend := none } with
+          | mk s' r => rw [hrs] at this; exact this
+        | notInvoked => exact none' _ rfl h.flag
+        | failBefore => exact none' _ rfl (fun _ => rfl)
+        | failAfter => exact none' _ rfl (fun _ => rfl)
+      | some a =>
+        cases o with
+        | ok => exact none' _ rfl h.flag
+        | notInvoked => exact none' _ rfl h.flag
+        | failBefore => exact none' _ rfl (fun _ => rfl)
+        | failAfter => exact none' _ rfl (fun _ => rfl)
+
+theorem guard_snapshot (s : SM) (h : GuardInv s) (o : Outcome) : GuardInv (snapshot 3 s o).1 := by
+  unfold snapshot
+  split
+  · exact h
+  · have hb := guard_snapBegin s h
+    cases hsb : snapBegin 3 s with
+    | mk s1 k =>
+      rw [hsb] at hb
+      simp only
+      split
+      · have he := guard_snapEnd s1 hb o
+        cases hse : snapEnd 3 s1 o with
+        | mk s2 r => rw [hse] at he; exact he
+      · exact hb
+
+theorem guard_step (s : SM) (h : GuardInv s) (op : Op) : GuardInv (step 3 s op).1 := by
+  cases op with
+  | write w => exact ⟨h.flag, h.tok⟩
+  | noop => exact ⟨h.flag, h.tok⟩
+  | snapBegin => exact guard_snapBegin s h
+  | snapBeginStageFails =>
+    simp only [step]
+    unfold snapBeginStageFails
+    split
+    · exact h
+    · split
+      · exact guard_snapBegin s h
+      · split
+        · exact h
+        · rename_i hp _ _
+          have hpn : s.pend = none := by
+            cases hs : s.pend with
+            | none => rfl
+            | some p => simp [hs] at hp
+          have h33 : (3 : Nat) ≥ 3 := by decide
+          simp only [h33, if_true]
+          exact ⟨fun _ => rfl, fun _ _ _ _ hp' => by simp only [hpn] at hp'; cases hp'⟩
+  | snapEnd o => exact guard_snapEnd s h o
+  | snapshot o => exact guard_snapshot s h o
+  | load c =>
+    simp only [step]
+    refine ⟨fun _ => rfl, ?_⟩
+    intro c' n cm g hp
+    obtain ⟨hle, _⟩ := h.tok c' n cm g hp
+    exact ⟨by simp only; omega, fun _ => by simp only; omega⟩
+  | boot c =>
+    simp only [step]
+    split
+    · exact h
+    · rename_i hp
+      have hpn : s.pend = none := by
+        cases hs : s.pend with
+        | none => rfl
+        | some p => simp [hs] at hp
+      have : GuardInv { s with db := c, file := c, fullNeeded := true, gen := s.gen + 1, modified := true, cmds := s.cmds + 1, applied := true } :=
+        ⟨fun _ => rfl, fun _ _ _ _ hp' => by simp only [hpn] at hp'; cases hp'⟩
+      exact guard_snapshot _ this .ok
+  | install c =>
+    have h30 : ¬ ((3 : Nat) = 0) := by decide
+    have h31 : (3 : Nat) ≥ 1 := by decide
+    simp only [step, h30, decide_false, Bool.false_and, Bool.false_eq_true, if_false, h31, if_true]
+    refine ⟨(fun hm => by cases hm), ?_⟩
+    intro c' n cm g hp
+    cases hs : s.pend with
+    | none => simp only [hs] at hp; cases hp
+    | some p => cases p <;> simp only [hs] at hp <;> cases hp
+  | reap =>
+    simp only [step]
+    cases resolve s.snaps with
+    | none => exact h
+    | some c => simp only; split <;> exact ⟨h.flag, h.tok⟩
+  | restart => exact guard_restart s h
+
+theorem guard_run (ops : List Op) : ∀ (s : SM), GuardInv s → GuardInv (run 3 s ops) := by
+  induction ops with
+  | nil => intro s h; exact h
+  | cons o os ih => intro s h; exact ih _ (guard_step s h o)
+
+
 end RqModel.SnapSM
